@@ -620,9 +620,11 @@ type expect struct {
 	Val      rv
 	After    rv // receiver after the call (valid when HasAfter)
 	HasAfter bool
-	// KeysAsSet: compare list results as multisets (order not promised by the property)
+	// AsSet: compare list results as multisets (order not promised by the property)
 	AsSet bool
-	Note  string
+	// Alt: a second acceptable result (choices the property leaves open, e.g. rounding of ties)
+	Alt  *rv
+	Note string
 }
 
 func runeLen(s string) int { return utf8.RuneCountInString(s) }
@@ -735,7 +737,11 @@ func modelMember(recv rv, member string, args []rv) expect {
 		case "trunc":
 			return val(vInt(int64(math.Trunc(recv.F))), same)
 		case "round":
-			return val(vInt(int64(math.Round(recv.F))), same)
+			e := val(vInt(int64(math.Round(recv.F))), same)
+			if alt := vInt(int64(math.RoundToEven(recv.F))); !eq(alt, e.Val) {
+				e.Alt = &alt // a tie: away from zero or to even are both "rounding"
+			}
+			return e
 		case "to_string":
 			return val(vStr(fmt.Sprint(recv.F)), same)
 		}
@@ -749,6 +755,9 @@ func modelMember(recv rv, member string, args []rv) expect {
 		case "len":
 			return val(vInt(int64(runeLen(s))), same)
 		case "replace":
+			if a(0).S == "" {
+				return noCrash("replacing the empty string: the property does not say where it matches")
+			}
 			return val(vStr(strings.ReplaceAll(s, a(0).S, a(1).S)), same)
 		case "repeat":
 			if a(0).I < 0 {
@@ -760,6 +769,9 @@ func modelMember(recv rv, member string, args []rv) expect {
 		case "starts_with":
 			return val(vBool(strings.HasPrefix(s, a(0).S)), same)
 		case "split":
+			if a(0).S == "" {
+				return noCrash("splitting at the empty separator: the property does not say into what")
+			}
 			parts := strings.Split(s, a(0).S)
 			out := rv{K: "list", L: []rv{}}
 			for _, p := range parts {
